@@ -94,7 +94,7 @@ int rstr_find(struct rstr *rs, char *s, int n, int *grps, int flg)
 	if (rs->lbeg)
 		end = s;
 	for (r = beg; r <= end; r++) {
-		if (rs->wbeg && r > s && (isword(r - 1) || !isword(r)))
+		if (rs->wbeg && ((r > s && isword(r - 1)) || !isword(r)))
 			continue;
 		if (rs->wend && r[len] && (r + len == s || !isword(r + len - 1) || isword(r + len)))
 			continue;
